@@ -21,6 +21,7 @@ pub fn def() -> PropDef {
         thorough_runs: 1_000_000,
         block: 1,
         flavours: &["tokio"],
+        outcome: None,
     }
 }
 
